@@ -382,7 +382,22 @@ def payload_value_truth_tests(fn: ast.AST) -> List[Tuple[int, str, str]]:
             for r in ast.walk(n):
                 if isinstance(r, ast.Return) and r.value is not None and (is_payload_read(r.value) or any(isinstance(x, ast.Name) and x.id in names for x in ast.walk(r.value))):
                     helpers.add(n.name)
+    def is_value_elt(e):
+        return is_payload_read(e) or (isinstance(e, ast.Call) and isinstance(e.func, ast.Name) and e.func.id in helpers)
+
+    # names of COLLECTIONS of payload values: values = [row_value(el) for el in elements]
+    collections = set()
+    for n in ast.walk(fn):
+        if isinstance(n, ast.Assign) and isinstance(n.targets[0], ast.Name):
+            v = n.value
+            while isinstance(v, ast.Call) and u(v.func) in ("list", "tuple", "set", "frozenset", "sorted") and v.args:
+                v = v.args[0]
+            if isinstance(v, (ast.ListComp, ast.GeneratorExp, ast.SetComp)) and is_value_elt(v.elt):
+                collections.add(n.targets[0].id)
     value_names = set()
+    for n in ast.walk(fn):
+        if isinstance(n, (ast.comprehension, ast.For)) and isinstance(n.target, ast.Name) and isinstance(n.iter, ast.Name) and n.iter.id in collections:
+            value_names.add(n.target.id)
     for n in ast.walk(fn):
         if isinstance(n, ast.Assign) and isinstance(n.targets[0], ast.Name) and is_payload_read(n.value):
             value_names.add(n.targets[0].id)
